@@ -73,6 +73,11 @@ inline void selm(WriteStream &s_ws, BufferWriter &s_bw, FixedBufferWriter &s_fw,
   r_rs >> k_pod; r_rs >> k_str; r_rs >> k_vpod; r_rs >> k_vstr; r_rs >> k_vv;
   r_br >> k_pod; r_br >> k_str; r_br >> k_vpod; r_br >> k_vstr; r_br >> k_vv;
 }
+// implicitly-declared special members that matter: copies of readers / writers share the buffer
+inline void copies(BufferReader &br, BufferWriter &bwr, FixedBufferWriter &fwr, WriteSizeCalculator &wcr) {
+  BufferReader br2(br); BufferWriter bw2(bwr); FixedBufferWriter fw2(fwr); WriteSizeCalculator wc2(wcr);
+  bw2 = bwr; fw2 = fwr; wc2 = wcr; FixedBufferWriter fdef; bw2.flush();
+}
 inline void sel(WriteStream &w, utility::OwnedArray<int> &w_own, utility::FixedArray<int> &w_fix,
                 utility::ArrayView<int> &w_view, utility::FixedArrayView<int> &w_fview) {
   w << w_own; w << w_fix; w << w_view; w << w_fview;
@@ -296,6 +301,7 @@ def method(docs, cls, name, want_body=True, pred=None):
 
 
 CLASS_IDS = {}
+LAST_DOCS = []
 INLINE = {}
 IDMAP = {}
 
@@ -617,6 +623,46 @@ def selection_matrix(docs, idmap):
     return out
 
 
+def inventory(docs):
+    """every declaration of namespace rkcommon::networking (and its detail namespace): namespace-level functions /
+    operators / templates, and per class every constructor, destructor, method, method template, conversion, data member,
+    plus the implicitly-declared special members that the instantiation TU makes clang declare.  -> sorted list of keys"""
+    out = set()
+
+    def sig(n):
+        return norm_sig(n.get("type", {}).get("qualType", ""))
+
+    def visit(n, scope, in_class):
+        for c in inner(n):
+            k = c.get("kind")
+            nm = c.get("name")
+            if k == "NamespaceDecl":
+                if nm != "c15inst":
+                    visit(c, scope + [nm] if nm != "networking" else scope, False)
+            elif k in ("CXXRecordDecl",) and c.get("completeDefinition") and nm:
+                visit(c, scope + [nm], True)
+            elif k == "ClassTemplateDecl":
+                recs = [x for x in inner(c) if x.get("kind") == "CXXRecordDecl" and x.get("completeDefinition")]
+                if recs:
+                    out.add("::".join(scope + [nm + "<>"]) + " : class template")
+            elif k in ("FunctionDecl", "CXXMethodDecl", "CXXConstructorDecl", "CXXDestructorDecl", "CXXConversionDecl"):
+                if c.get("previousDecl") and not in_class:
+                    continue                      # out-of-line definition of something already listed
+                tag = " (implicit)" if c.get("isImplicit") else (" (defaulted)" if c.get("explicitlyDefaulted") == "default" else "")
+                out.add("::".join(scope + [nm]) + " : " + sig(c) + tag)
+            elif k == "FunctionTemplateDecl":
+                if c.get("previousDecl"):
+                    continue
+                fds = [x for x in inner(c) if x.get("kind") in ("FunctionDecl", "CXXMethodDecl")]
+                out.add("::".join(scope + [nm + "<>"]) + " : " + (sig(fds[0]) if fds else ""))
+            elif k == "FieldDecl" and in_class:
+                out.add("::".join(scope + [nm]) + " : field " + sig(c))
+    for d in docs:
+        if d.get("kind") == "NamespaceDecl" and d.get("name") == "networking":
+            visit(d, [], False)
+    return sorted(out)
+
+
 def functions(docs, name):
     for d in docs:
         for n, ps in walk(d):
@@ -633,6 +679,7 @@ def main(argv):
         elif argv[i] == "--work": work = argv[i + 1]; i += 2
         else: i += 1
     docs = dump(repo, work)
+    LAST_DOCS[:] = docs
     index_classes(docs)
     facts = {}
     INLINE.clear()
